@@ -89,10 +89,12 @@ def abbreviate_space_both(s):
 def parse_abbreviated_size(s):
     if s is None or s == "":
         return None
-    m = re.match(r"^(\d+)\s*([KMGTPE]?[I]?[B]?)$", s.upper())
+    # a decimal fraction is allowed, as in the "1.50 kB" that
+    # abbreviate_space() prints, as long as it denotes a whole number of bytes
+    m = re.match(r"^(\d+)(?:\.(\d+))?\s*([KMGTPE]?[I]?[B]?)$", s.upper())
     if not m:
         raise ValueError("unparseable value %s" % s)
-    number, suffix = m.groups()
+    number, fraction, suffix = m.groups()
     if suffix.endswith("B"):
         suffix = suffix[:-1]
     multiplier = {"":   1,
@@ -110,4 +112,10 @@ def parse_abbreviated_size(s):
                   "PI": 1024 * 1024 * 1024 * 1024 * 1024,
                   "EI": 1024 * 1024 * 1024 * 1024 * 1024 * 1024,
                   }[suffix]
-    return int(number) * multiplier
+    if fraction is None:
+        return int(number) * multiplier
+    scale = 10 ** len(fraction)
+    (value, remainder) = divmod(int(number + fraction) * multiplier, scale)
+    if remainder:
+        raise ValueError("unparseable value %s" % s)
+    return value
